@@ -188,6 +188,8 @@ def generate(src):
         ob(s, "callback/post: executed exactly once  [C01]", g['exec_finished'])
         ob(s, "callback/post: acked exactly once iff delivered with an acknowledge callback  [C02]", g['acks'] == If(ackable, 1, 0))
         ob(s, "callback/post: exactly one result stored unless no-result  [C07]", g['saves'] == If(g['noresult'], 0, 1))
+        ob(s, "callback/post: a failing result backend does not prevent the message from completing: the when_saved acknowledgement still happens  [C07]",
+           Implies(And(g['save_failed'], ackable, ACK == 2), g['acks'] == 1))
         for kind, kk in KIND.items():
             want = And(0 <= j, j < NMW, over(kk, j)) if kind != 'post_save' else And(0 <= j, j < NMW, over(kk, j), g['saves'] == 1, g['save_returned'])
             ob(s, f"callback/post: every overridden {kind} fired exactly once, in order  [C10]", Implies(Not(g['hook_failed']), ForAll([j], g['fired'][kk][j] == want)))
